@@ -10,13 +10,20 @@ def run(ctx):
                 "length x every scalar x every container kind; all pair lists up to 3 over 3 names x 3 values incl. repeated and empty "
                 "names; depth-2 nestings over a capped level-1 set; long names/strings; onMetaData shapes; non-canonical booleans"
                 + ("; random builder behaviours by simulation" + ("; depth 3 and 4" if thorough else "")) +
-                ") and emits each with its encoding (LD), size, a following value and trailing bytes; a case is distinct if its JSON differs")
+                ") and emits each with its encoding (LD), size, a following value and trailing bytes; a case is distinct if its JSON differs. "
+                "LIVE (Amf0Live.tla: values as objects with identity): MC of every observation / call / observation history (thorough: two "
+                "calls) on every node of three-level chains; GEN of every history marshal a / one call on x (Set of a new scalar or empty "
+                "container under an existing or a new name, assignment through the pointer, replacement by the decoded copy) / marshal b "
+                "with a, b at or above x, from 27 start trees built or decoded, plus random walks of 14 calls (objects detached, moved, "
+                "shared, re-decoded); after every call the observed node must report Size() = the size of its CURRENT value and marshal to "
+                "exactly those bytes")
     ctx.exhaustive = True
     ctx.assumptions += [
         "names and string contents are position-dependent byte patterns (they do contain 0x00 and 0x09), not all byte strings",
         "the library's strict-array convention (count, then name/value pairs) is taken as given here: layout StrictKeyed; its relation to the AMF0 specification is C06",
         "an ECMA array's count has no setter: trees with a non-zero count are checked through unmarshal / Size / re-marshal only",
         "container contents are observable through Get(name) (first pair of a name) and MarshalBinary only; order, repeated names and counts are compared through the bytes",
+        "live histories: one call between two observations exhaustively (27 start trees, <= 3 pairs per container), longer ones by random walk only (<= 10 objects, 14 calls); no concurrent calls",
         "bounded trees: depth <= %d, strings/names <= %d bytes" % ((4, 65535) if thorough else (2, 300)),
     ]
     ctx.sany("amf0", "Amf0")
@@ -27,10 +34,21 @@ def run(ctx):
     # non-vacuity: the two defects this property had in the library, as named deviations of the specification
     ctx.tlc("amf0", "MC_Amf0", "MC_Amf0_keyed_decodeset.cfg", expect_violation="Consumed", count_states=False)
     ctx.tlc("amf0", "MC_Amf0", "MC_Amf0_keyed_countzero.cfg", expect_violation="RoundTrip", count_states=False)
+    # values as live objects (Amf0Live.tla): histories of calls - marshal, change below an attached node, assign a scalar in
+    # place, replace a tree by its decoded copy, marshal again - exhaustively for observation / call / observation (thorough:
+    # two calls) on every node of three-level chains; non-vacuity: a container that remembers its bytes and forgets them only
+    # when Set is called on itself
+    ctx.sany("amf0", "Amf0Live")
+    ctx.tlc("amf0", "MC_Amf0Live", "MC_Amf0Live_keyed.thorough.cfg" if thorough else "MC_Amf0Live_keyed.cfg", timeout=840)
+    ctx.tlc("amf0", "MC_Amf0Live", "MC_Amf0Live_keyed_cache.cfg", expect_violation="LiveSize", count_states=False)
     cases = os.path.join(ctx.out, "cases.ndjson")
     ctx.tlc("amf0", "Gen_Amf0", "Gen_Amf0_c05.%s.cfg" % ctx.tier, cases_to=cases, timeout=840)
     # random New/Set behaviours of the builder (Set replacing values of existing names, nesting to depth 4);
     # num is per worker
     ctx.tlc("amf0", "Gen_Amf0", "Gen_Amf0_c05.sim.cfg", simulate=700 if thorough else 40, depth=80, cases_to=cases, timeout=600)
+    # histories: every marshal a / one call on x / marshal b with a, b at or above x, from every three-level start tree, built
+    # or decoded (exhaustive); random walks of 14 calls with objects detached, moved, shared, re-decoded (simulation)
+    ctx.tlc("amf0", "Gen_Amf0Live", "Gen_Amf0Live_c05.%s.cfg" % ctx.tier, cases_to=cases, timeout=840)
+    ctx.tlc("amf0", "Gen_Amf0Live", "Gen_Amf0Live_c05.walk.cfg", simulate=200 if thorough else 25, depth=40, cases_to=cases, timeout=600)
     res = ctx.replay("amf0", cases)
     ctx.judge("amf0", cases, res)
